@@ -2,12 +2,14 @@
 import random
 import re
 import numpy as np
-from harness import circgen as cg, oracle_net as on
+from harness import circgen as cg, oracle_net as on, traversals_src as ts
 
 THEOREMS = ['C17_topo_nodup', 'C17_sources_first', 'C17_drivers_first', 'C17_complete', 'C17_levels', 'C17_levels_domain',
             'C17_line_order', 'C17_reverse_is_mirror', 'C17_reverse_complete', 'C17_readers_first', 'C17_locs_numeric_order',
             'C17_fanin_order', 'C17_fanin_nodup', 'C17_fanin_sound', 'C17_fanin_complete_comb', 'C17_fanin_exact_comb',
             'C17_fanin_unfold', 'C17_fanin_comb_node', 'C17_fanin_seq_node', 'C17_acyclic_rev_b_sound']
+THEOREMS += ['C17_traversals_source_is_model', 'C17_s_nodes_source_is_model', 'C17_line_order_source_relative', 'C17_source_complete',
+             'C17_source_reverse_is_mirror', 'C17_traversals_source_hypotheses_needed', 'C17_traversals_source_nonvacuous']
 HEADER = '''From Coq Require Import List NArith ZArith Bool Arith String.
 From KV Require Import Model.Netlist Model.Locs Model.Corr Proofs.WfCheck Proofs.FaninProofs.
 Import ListNotations.
@@ -271,9 +273,15 @@ def traverse_then_edit(rng, c, op=None):
 
 
 def run(ck):
-    ck.prove('C17', THEOREMS)
+    # translation (tie T): Gen/TraversalsSrc.v is regenerated from the current text of the traversal generators; C17_traversals_source_is_model
+    # then re-proves that the translated functions are the hand models all C17 theorems are stated on
+    ok_src = ts.translate_traversals(ck)
+    proved, _ = ck.prove('C17', THEOREMS)
+    if not proved and ok_src:
+        from vcheck import core
+        core.coq_make(['theories/Gen/TraversalsSrc.vo'] + core.support_targets())   # the translated source must exist for its correspondence
     rng = random.Random(ck.seed * 7919 + 17)
-    fails, cases, meta = [], [], []
+    fails, cases, meta, src_cases = [], [], [], []
     for i in range(ck.scale(120, 3000)):
         c, a = wide_circuit(rng) if i in (7, 57) else direct_state_circuit(rng) if i % 5 == 4 else gap_circuit(rng) if i % 5 == 2 else cg.gen_circuit(rng)
         edit, pre, eop = None, None, None
@@ -305,6 +313,7 @@ def run(ck):
         cases.append(f'wf_netlist_b {cg.coq_netlist(c)} && acyclic_b {cg.coq_netlist(c)} && acyclic_rev_b {cg.coq_netlist(c)} && trav_case {cg.coq_netlist(c)} {cg.coq_list(origins)} ({cg.coq_list(exp[0])}, '
                      f'{cg.coq_list(exp[1], lambda p: f"({p[0]}, {p[1]})")}, {cg.coq_list(exp[2])}, {cg.coq_list(exp[3])}, {cg.coq_list(exp[4])})')
         meta.append(desc)
+        src_cases.append(ts.coq_src_case(c, origins, exp, [x.index for x in c.s_nodes]))
         if i < 2:
             ck.sample({'nodes': len(c.nodes), 'origins': origins, 'topological_order': exp[0][:12]})
     chunks = [cases[i:i + 60] for i in range(0, len(cases), 60)]
@@ -314,6 +323,16 @@ def run(ck):
     ran = all(ok and cg.parse_nat_list(out) is not None for ok, out in outs)
     ck.obligation(f'Coq model of topological_order / _with_level / line order / reversed order / fanin = implementation on {len(cases)} '
                   'circuits (exact sequences); the hypotheses wf_netlist / comb_acyclic / comb_acyclic_rev of the theorems are discharged for each circuit by the proved-sound checkers wf_netlist_b / acyclic_b / acyclic_rev_b', ran and not bad, 'correspondence', f'failing cases {bad[:8]}')
+    sbad = []
+    if ok_src:
+        chunks = [src_cases[i:i + 60] for i in range(0, len(src_cases), 60)]
+        outs = ck.coq_eval_many('travsrc', [ts.cases_file(ch) for ch in chunks], jobs=12)
+        sbad = [ci * 60 + j for ci, (ok, out) in enumerate(outs) for j in ((cg.parse_nat_list(out) if ok else None) or [])]
+        sran = all(ok and cg.parse_nat_list(out) is not None for ok, out in outs)
+        from vcheck import core
+        ck.obligation(f'translated source Gen/TraversalsSrc.v (s_nodes, topological_order, _with_level, line order, reversed order, fanin; fuel = '
+                      f'nodes + 1) = implementation on {len(src_cases)} circuits (exact sequences)', sran and not sbad, 'correspondence',
+                      f'failing cases {sbad[:8]}' if sran else core.coq_first_error(outs[0][1] if outs else ''))
     for i in range(ck.scale(150, 4000)):
         desc, what = locs_check(rng)
         ck.count(1, 'locs:' + desc['style'])
@@ -330,14 +349,17 @@ def run(ck):
                   f'{len(LOCS_CASES)} lookups', lran and not lbad, 'correspondence', f'failing lookups {lbad[:8]}')
     ck.rule('random circuits (unconnected pins, state elements, dangling nodes) x random origin sets: exact sequences vs the Coq model + '
             'graph-theoretic oracle; naming schemes (bracket / underscore / 2-D / mixed, gaps, shared prefixes) vs ground-truth positions')
-    ck.trust('modelled, not verified: Circuit.topological_order, topological_order_with_level, topological_line_order, '
-             'reversed_topological_order, fanin (Model/Netlist.v; exact sequence correspondence); wf_netlist is what C09 establishes for '
+    ck.trust('hand models of Circuit.topological_order, topological_order_with_level, topological_line_order, '
+             'reversed_topological_order, fanin, s_nodes (Model/Netlist.v): since round 3 PROVED equal to the translated source '
+             '(C17_traversals_source_is_model) and still compared by exact sequence correspondence; wf_netlist is what C09 establishes for '
              'every Circuit; the prefix lookup _locs is transcribed for literal prefixes (Model/Locs.v: the regular expression is '
              'modelled as literal prefix + maximal trailing index run) and compared exactly; the fan-in sandwich (comb. path => yielded => path) is '
              'a theorem about the model of fanin (C17_fanin_sound / _complete_comb / _unfold) and is re-checked on the implementation by the oracle')
     for kind, desc, what in fails[:5]:
         ck.fail(kind, ('Circuit traversal: ' if kind == 'traversal' else 'Circuit._locs: ') + what,
                 {'component': 'circuit.Circuit', 'input': desc, 'actual': what})
+    if not fails and sbad and not bad:
+        ck.fail('source-disagrees', 'translated source and implementation disagree', {'component': 'Gen/TraversalsSrc.v', 'input': meta[sbad[0]]}, found_input=False)
     if not fails and bad:
         ck.fail('model-disagrees', 'Coq model and implementation disagree', {'component': 'Model/Netlist.v', 'input': meta[bad[0]]}, found_input=False)
 
